@@ -697,6 +697,55 @@ fn check_history(report: &Report, rt: &std::sync::Arc<tokio::runtime::Runtime>, 
             let kinds = compare(report, hist, &desc, "after_fault_append_first", &tail, &found3, &truth3);
             single_diffs.insert((set[0].0.clone(), fault_name(&set[0].1), "after_fault_append_first"), kinds);
         }
+        drop(faulted);
+        // the fault under a RUNNING authority (caches may be lost or replaced at any time): a warm
+        // authority - it has appended to the thread, its counter is cached - then the fault on
+        // its live files, queries, one more append, queries. Single faults only; quick tier:
+        // delete / empty only, histories of 3 ops left to the thorough tier.
+        let warm_fault = set.len() == 1 && (!light || (hist.len() != 3 && matches!(set[0].1, Fault::Delete | Fault::Truncate0)));
+        if !warm_fault {
+            continue;
+        }
+        announce(json!({"t": "begin", "what": "warm_fault", "history": hist_names, "fault": desc}));
+        let warm = fx.copy(true);
+        if warm.store().append_message(&thread, "u".into(), "o".into(), "warm-up".into()).is_err() {
+            continue;
+        }
+        // the roll-back targets are the history's snapshots; the other faults act on the live content
+        if !apply_fault(&warm.data.join("continuity_streams").join(&set[0].0), &set[0].1, &snapshots) {
+            continue;
+        }
+        let truth4_fx = warm.copy(false);
+        let truth4 = truth_answers(&truth4_fx, &thread, true, 3);
+        drop(truth4_fx);
+        let found4 = all_answers_ordered(&warm, &thread, true, 3, true);
+        report.eval(Some(&(&hist_names, desc.to_string(), "warm_fault")));
+        report.count("warm_fault_cases", 1);
+        compare(report, hist, &desc, "warm_fault", "tail=message", &found4, &truth4);
+        // a second store for the append: the queries above may have repaired what the append would meet
+        let warm = fx.copy(true);
+        if warm.store().append_message(&thread, "u".into(), "o".into(), "warm-up".into()).is_err() {
+            continue;
+        }
+        apply_fault(&warm.data.join("continuity_streams").join(&set[0].0), &set[0].1, &snapshots);
+        if let Err(e) = warm.store().append_message(&thread, "u".into(), "o".into(), "after-warm-fault".into()) {
+            report.violation(&format!("C04:append_after_fault_failed:{}", desc["file"].as_str().unwrap_or("")), json!({"history": hist_names, "fault": desc, "phase": "warm_fault"}), &format!("append after the fault under a running authority failed: {e}"));
+            continue;
+        }
+        if let Err(e) = warm.validated() {
+            report.violation(
+                &format!("C04:numbering_poisoned_by_cache:{}:{}", desc["file"].as_str().unwrap_or(""), desc["fault"].as_str().unwrap_or("").split("_op").next().unwrap_or("")),
+                json!({"engine": "H-histories", "harness": "c04.faults", "history": hist_names, "fault": desc, "phase": "warm_fault_and_append"}),
+                &format!("after the fault under a running authority and one append, validated replay fails: {e}"),
+            );
+            continue;
+        }
+        let truth5_fx = warm.copy(false);
+        let truth5 = truth_answers(&truth5_fx, &thread, true, 3);
+        drop(truth5_fx);
+        let found5 = all_answers_ordered(&warm, &thread, true, 3, true);
+        report.eval(Some(&(&hist_names, desc.to_string(), "warm_fault_and_append")));
+        compare(report, hist, &desc, "warm_fault_and_append", "tail=message", &found5, &truth5);
     }
 }
 
